@@ -43,6 +43,12 @@ def call(P, entry, text):
 STATE_POOL = ['len(data) > 0', 'data > 0', 'data = "s"', 'not data', 'abs(data) < 2', 'data', 'data[0] > 1', 'data.x = 1',
               'data >', 'forall x in data: 1', 'foo(data)', 'sum(data) = data2', 'data2 and data', '{ data }', 'data in {1, 2}',
               'x in data', 'forall k in data: @k > 0', '@data > data', 'data = data2']
+POLLUTERS = [('property', 'globally: p as M causes q {forall i in xs: @i > @M.lim}'),
+             ('property', 'globally: no q {forall i in xs: @i > @N.lim}'),
+             ('property', 'after a as A: no b {exists k in ys: (@k = @A.v and len(zs) > 0)}'),
+             ('predicate', '{ forall i in xs: (@i > @M.lim or sum(ws) > @i) }'),
+             ('condition', 'exists j in [0 to n]: (xs[@j] > @W.x and abs(m) > 0)'),
+             ('specification', '# id: pol\nglobally: (p as M or r) causes q {forall i in xs: @i > @M.lim}\nglobally: no z {x > 0}')]
 PROP_POOL = ['globally: no a {data > 0}', 'globally: no a {len(data) > 0}', 'globally: some a as A {data = "s"}',
              'after a as A: b {data = @A.data} causes c', 'globally: no a {data >', 'globally: no a {@B.x > 0}',
              'globally: (a or a) causes b', 'globally: no a {not data}']
@@ -149,6 +155,8 @@ def run(replay=None):
     sample = [(e['entry'], e['text']) for e in rnd.sample(events, min(len(events), 6000 if thorough else 2500))]
     # the valid corpus (shares field names between texts) in two different orders on two parser objects
     corp = [(entry, ' '.join(t)) for entry, t in rnd.sample(pool, min(len(pool), 8000 if thorough else 3000))]
+    half = len(corp) // 2
+    corp = corp[:half] + POLLUTERS + corp[half:]
     for entry, text in corp:
         add('P1', P1, entry, text)
     order2 = list(corp) + sample
